@@ -92,6 +92,32 @@ func TestStrictHTTPClient(t *testing.T) {
 		assert.EqualError(t, err, "strictmode is enabled, but request is not over HTTPS")
 		assert.Equal(t, 0, rt.invocations)
 	})
+	t.Run("redirect to HTTP", func(t *testing.T) {
+		t.Run("not followed when strictmode is enabled", func(t *testing.T) {
+			rt := &stubRoundTripper{statusCode: http.StatusFound, headers: map[string]string{"Location": "http://example.com/other"}}
+			DefaultCachingTransport = rt
+			StrictMode = true
+
+			client := NewWithCache(time.Second)
+			httpRequest, _ := http.NewRequest("GET", "https://example.com", nil)
+			_, err := client.Do(httpRequest)
+
+			assert.ErrorContains(t, err, "strictmode is enabled, but redirect is not over HTTPS")
+			assert.Equal(t, 1, rt.invocations)
+		})
+		t.Run("followed when strictmode is disabled, up to the maximum number of redirects", func(t *testing.T) {
+			rt := &stubRoundTripper{statusCode: http.StatusFound, headers: map[string]string{"Location": "http://example.com/other"}}
+			DefaultCachingTransport = rt
+			StrictMode = false
+
+			client := NewWithCache(time.Second)
+			httpRequest, _ := http.NewRequest("GET", "https://example.com", nil)
+			_, err := client.Do(httpRequest)
+
+			assert.ErrorContains(t, err, "stopped after 10 redirects")
+			assert.Equal(t, maxRedirects, rt.invocations)
+		})
+	})
 }
 
 func TestLimitedReadAll(t *testing.T) {
